@@ -54,7 +54,7 @@ def run(tier, seed, t0):
     rng = random.Random("c05-%d" % seed)
     scn = scenarios.crash_scenarios(total, writes, hs, tier, rng)
     # missed heartbeats (real time, 1 s interval): the server goes silent with a call in flight
-    scn += scenarios.generate("hb_silence", 3 if tier == "quick" else 12, seed)
+    scn += scenarios.generate("hb_silence", 6 if tier == "quick" else 16, seed)
     # a close right behind the reply of a caller that has not yet picked its reply up
     slow = scenarios.generate("reply_then_close", 100 if tier == "quick" else 1500, seed)
     for k, x in enumerate(slow):
